@@ -1094,8 +1094,13 @@ def define_unit(
             value = unyt_quantity(value[0], value[1], registry=registry)
         else:
             raise RuntimeError('"value" needs to be a quantity or (value, unit) tuple!')
-    base_value = float(value.in_base(unit_system="mks"))
+    in_mks = value.in_base(unit_system="mks")
     dimensions = value.units.dimensions
+    if in_mks.units.dimensions != dimensions:
+        # a Gaussian electromagnetic unit was swapped for its SI counterpart, which
+        # has other dimensions: keep the quantity's own size and dimensions
+        in_mks = value.value * value.units.base_value
+    base_value = float(in_mks)
     registry.add(
         symbol,
         base_value,
